@@ -33,6 +33,8 @@ def props_of(msg, plan_id):
 
 
 def prop_of(msg, plan_id):
+    if plan_id.startswith("misuse") and msg.startswith("End:"):
+        return "C12"
     if plan_id.startswith(("bp", "big")) and msg.startswith("End:"):
         return "C13"
     if plan_id.startswith("timer") and msg.startswith("End:"):
@@ -83,6 +85,8 @@ def validate_traces(chk, prop, trace_path):
 def driver_prop(rec):
     key = rec["key"]
     pid = key.split(":")[-1]
+    if pid.startswith("misuse"):
+        return "C12"
     if pid.startswith("pack") or ":stream:" in key:
         return "C10"
     if pid.startswith(("bp", "big")):
